@@ -149,6 +149,10 @@ mod drop;
 mod hash;
 mod link;
 mod rc;
+// Verification-only module; its sources are supplied by the verification
+// harness at check time. Never compiled in ordinary builds.
+#[cfg(kani)]
+mod verif;
 
 // Doc modules
 #[cfg(any(doctest, docsrs))]
